@@ -27,6 +27,9 @@ import (
 type c11scenario struct {
 	History []string  `json:"history"`   // a | b | dup-a | forbidden | fail-c
 	Behave  [3]string `json:"behaviour"` // per channel (webhook, websocket, recorder): ok | error | hang
+	// Long > 0: the history is a linear chain of that many new headers (symbols n1..nK) - long
+	// enough to exhaust any small pool of delivery slots a hanging channel could hold on to
+	Long int `json:"long,omitempty"`
 }
 
 type evRec struct {
@@ -164,6 +167,19 @@ func runC11(rep *core.Report, sc c11scenario, prefix []int, seen map[string]bool
 	L := core.BitsLight
 	u := core.Fabricate(core.Blueprint{Nodes: []core.BNode{{}, {Parent: 0, Bits: L}, {Parent: 1, Bits: L}, {Parent: 0, Bits: core.BitsHeavy}, {Parent: 0, Bits: L}}}, 0)
 	nodeOf := map[string]int{"a": 1, "b": 2, "dup-a": 1, "fail-c": 3, "forbidden": 4}
+	if sc.Long > 0 {
+		// nodes 1..4 as above (unused), then a linear chain n1..nK off genesis
+		bn := []core.BNode{{}, {Parent: 0, Bits: L}, {Parent: 1, Bits: L}, {Parent: 0, Bits: core.BitsHeavy}, {Parent: 0, Bits: L}}
+		for k := 0; k < sc.Long; k++ {
+			parent := 0
+			if k > 0 {
+				parent = 4 + k
+			}
+			bn = append(bn, core.BNode{Parent: parent, Bits: core.BitsHeavy})
+			nodeOf[fmt.Sprintf("n%d", k+1)] = 5 + k
+		}
+		u = core.Fabricate(core.Blueprint{Nodes: bn}, 0)
+	}
 	restore := core.SetForbidden(u.H[4])
 	defer restore()
 	s := NewSched(false)
@@ -200,7 +216,7 @@ func runC11(rep *core.Report, sc c11scenario, prefix []int, seen map[string]bool
 	var pts []point
 	last := -1
 	pruned := false
-	for step := 0; step < 200; step++ {
+	for step := 0; step < 200+10*sc.Long; step++ {
 		en := s.Enabled(last)
 		if len(en) == 0 {
 			if s.Recheck() {
@@ -303,7 +319,7 @@ func checkC11(t *testing.T, env core.Env, rep *core.Report) {
 	}
 	long := [][]string{{"a", "b", "dup-a"}, {"a", "forbidden", "b"}, {"fail-c", "a", "b"}, {"a", "dup-a", "b"}, {"b", "a", "b"}}
 	beh := []string{"ok", "error", "hang"}
-	rep.Bound = "[all histories of length 1-2 over {a, b(child of a), dup-a, forbidden, fail-c} x all 27 per-channel behaviours {ok,error,never returns}: all schedules (memoised on global state); 5 histories of length 3 x 27 behaviours: preemption bound 1]"
+	rep.Bound = "[all histories of length 1-2 over {a, b(child of a), dup-a, forbidden, fail-c} x all 27 per-channel behaviours {ok,error,never returns}: all schedules (memoised on global state); 5 histories of length 3 x 27 behaviours: preemption bound 1; 40 new headers x one channel never returning: one schedule each]"
 	idx := 0
 	var evals int64
 	for hi, h := range append(hists, long...) {
@@ -338,6 +354,27 @@ func checkC11(t *testing.T, env core.Env, rep *core.Report) {
 				}
 			}
 		}
+	}
+	// long histories with one channel that never returns: one schedule each (the submitter runs
+	// ahead, deliveries follow) - ingestion must finish and the healthy channels must get all events
+	for ci := 0; ci < 3; ci++ {
+		idx++
+		if !env.Mine(idx) || rep.Expired() {
+			continue
+		}
+		sc := c11scenario{Long: 40, Behave: [3]string{"ok", "ok", "ok"}}
+		sc.Behave[ci] = "hang"
+		for k := 1; k <= sc.Long; k++ {
+			sc.History = append(sc.History, fmt.Sprintf("n%d", k))
+		}
+		rep.Executions++
+		rep.DistinctNontrivial++
+		rep.States++
+		synctest.Test(t, func(*testing.T) { runC11(rep, sc, nil, nil) })
+		evals++
+		rep.Sample(func() any {
+			return map[string]any{"scenario": "40 new headers, channel " + fmt.Sprint(ci) + " never returns", "schedules": 1}
+		})
 	}
 	rep.Evaluations = evals
 	_ = sort.Strings
